@@ -4,7 +4,7 @@
 #  patch applies; full suite passes WITH the patch; demo FAILS with the patch and PASSES without it.
 # On success copies patch.diff, demo.rs, notes.md to /verif/seeded/<id>-<mk>/ and prints CONFIRMED.
 set -u
-id="$1"; mk="$2"; W="/tmp/seed-$id"; S="$W/SEED/$mk"
+id="$1"; mk="$2"; W="${SEED_ROOT:-/tmp/seed}-$id"; S="$W/SEED/$mk"
 [ -f "$S/patch.diff" ] && [ -f "$S/demo.rs" ] || { echo "$id $mk MISSING files"; exit 2; }
 cd "$W" || exit 2
 git checkout -q -- . ; rm -f etherparse/tests/demo_*.rs
@@ -22,7 +22,7 @@ cargo test --workspace --offline >"$S/confirm_suite_patched.log" 2>&1; rc=$?
 res="$(grep -E '^test result' "$S/confirm_suite_patched.log" | tr '\n' ' ')"
 git checkout -q -- .
 if [ $rc -ne 0 ] || echo "$res" | grep -q FAILED; then echo "$id $mk SUITE-FAILS-WITH-PATCH $res"; exit 7; fi
-D="/verif/seeded/$id-$mk"; mkdir -p "$D"
+D="/verif/seeded/$id-${SEED_TAG:-}$mk"; mkdir -p "$D"
 cp "$S/patch.diff" "$S/demo.rs" "$D/"; cp "$S/notes.md" "$D/notes.md" 2>/dev/null
 fail="$(grep -m1 -E "panicked at|assertion" "$S/confirm_demo_patched.log" | cut -c1-200)"
 echo "$id $mk CONFIRMED suite=[$res] demo_failure=[$fail]"
